@@ -86,7 +86,8 @@ def run_r1(chk: Check, prog: Program) -> None:
 
     # one node class throughout, and a tree that mixes two node classes (rotation must not depend on the classes of the
     # node and its neighbours: every neighbour independently ranges over both)
-    universes = [("", frozenset(["BinaryTreeNode"])), ("mixed classes: ", frozenset(["AddExpression", "MultiplyExpression"]))]
+    binary_kinds = frozenset(k for k in prog.concrete_kinds() if prog.is_subclass(k, "BinaryExpression"))
+    universes = [("", frozenset(["BinaryTreeNode"])), ("mixed classes: ", binary_kinds or frozenset(["AddExpression", "MultiplyExpression"]))]
     from .common import value_equal_classes
     veq = value_equal_classes(prog)
     if veq:
@@ -97,7 +98,7 @@ def run_r1(chk: Check, prog: Program) -> None:
         def body(it: Interp, kinds=kinds):
             node = it.new_summary(kinds, "arg")
             it.arg = node
-            return it.call_function(m, [node], {})
+            return it.call(it.getattr_(node, "rotate"), [], {})   # virtual dispatch: an override in a subclass is what runs
         for p in explore(prog, body, {"tree_mode": "binary", "max_updepth": 2}):
             p.tag = tag
             results.append(p)
